@@ -249,6 +249,15 @@ func GenBindings(t *rapid.T, label string) map[string]interface{} {
 		}
 		bs[k] = jsongen.Value(t, smallVal, fmt.Sprintf("%s.v%d", label, i))
 	}
+	if rapid.IntRange(0, 3).Draw(t, label+".aoo") == 0 {
+		// an array of objects (and of arrays): what an action can write
+		// into element by element
+		k := rapid.SampledFrom([]string{"x", "y", "l"}).Draw(t, label+".aook")
+		bs[k] = []interface{}{
+			map[string]interface{}{"a": rapid.SampledFrom(smallVal.Nums).Draw(t, label+".aoov")},
+			map[string]interface{}{"b": []interface{}{1.0}},
+		}
+	}
 	return bs
 }
 
